@@ -297,6 +297,14 @@ template<typename Mat_> static Mat_ read_matrix(Cur& c, Index& nval)
   Index rows = c.idx(), cols = c.idx();
   NV rp = nlist(c), ci = nlist(c); QV val = qlist(c);
   nval = Index(val.size());
+  if(val.empty())
+  {
+    // entry-free matrix: the array constructor asserts non-empty arrays and Mat(rows, cols) owns no row_ptr at all;
+    // Mat(rows, cols, used_elements = 0) allocates row_ptr, which is filled here
+    Mat_ a(rows, cols, Index(0));
+    for(Index i(0); i < Index(rp.size()) && i <= rows; ++i) a.row_ptr()[i] = rp[i];
+    return a;
+  }
   auto vci = mk_ivec(ci); auto vrp = mk_ivec(rp); auto vv = mk_qvec(val);
   return Mat_(rows, cols, vci, vv, vrp);
 }
